@@ -69,14 +69,11 @@ Record state := mkState {
   s_status : str;
   s_counts : list (list nat * nat);      (* children created under a section path *)
   s_h0 : bool;
-  s_sections : list (list nat * str);    (* section path -> title, in creation order *)
-  s_notes : list note;                   (* reverse creation order *)
-  s_has_errors : bool
+  s_sections : list (list nat * str)     (* section path -> title, in creation order *)
 }.
 #[export] Instance eta_state : Settable _ :=
   settable! mkState <s_zid; s_ids; s_block; s_h; s_first_comment; s_in_hdr; s_in_head; s_in_note; s_in_quoted;
-                     s_tags; s_props; s_dates; s_modify; s_prio; s_status; s_counts; s_h0; s_sections; s_notes;
-                     s_has_errors>.
+                     s_tags; s_props; s_dates; s_modify; s_prio; s_status; s_counts; s_h0; s_sections>.
 
 Definition init_state : state :=
   {| s_zid := None; s_ids := 0; s_block := None; s_h := [None; None; None; None];
@@ -84,7 +81,7 @@ Definition init_state : state :=
      s_in_note := false; s_in_quoted := false;
      s_tags := repeat [] 6; s_props := repeat [] 6; s_dates := repeat None 6; s_modify := None;
      s_prio := default_priority; s_status := S "o";
-     s_counts := []; s_h0 := false; s_sections := []; s_notes := []; s_has_errors := false |}.
+     s_counts := []; s_h0 := false; s_sections := [] |}.
 
 Fixpoint upd {A} (n : nat) (f : A -> A) (l : list A) : list A :=
   match l, n with
@@ -239,6 +236,27 @@ Fixpoint bullet_props (bullets : list str) (st : state) : res state :=
   end.
 
 Definition rn (r : str) (n : string) : bool := eqb_str r (S n).
+
+Inductive rkind :=
+| RArea | RContext | RPerson | RProject | RLink | RGlobal | RRef | RZidLink | RLocal | RUrl
+| RBaseNote | RTodo | RBaseTodo | RBlock | RDate | RHead | RId | RInline | RItem | RPriority | RQuoted
+| RSimple | RTodoPrefix | RComment | RHeader (lvl : nat) | RSection (lvl : nat) | ROther.
+
+Definition classify (r : str) : rkind :=
+  if rn r "area" then RArea else if rn r "context" then RContext else if rn r "person" then RPerson
+  else if rn r "project" then RProject else if rn r "link" then RLink else if rn r "global_link" then RGlobal
+  else if rn r "ref_link" then RRef else if rn r "zid_link" then RZidLink else if rn r "local_link" then RLocal
+  else if rn r "url" then RUrl else if rn r "base_note" then RBaseNote else if rn r "todo" then RTodo
+  else if rn r "base_todo" then RBaseTodo else if rn r "block" then RBlock else if rn r "date" then RDate
+  else if rn r "head" then RHead else if rn r "id" then RId else if rn r "inline_prop" then RInline
+  else if rn r "item" then RItem else if rn r "priority" then RPriority else if rn r "quoted_word" then RQuoted
+  else if rn r "simple_prop" then RSimple else if rn r "todo_prefix" then RTodoPrefix
+  else if rn r "comment" then RComment
+  else if rn r "h1_header" then RHeader 0 else if rn r "h2_header" then RHeader 1
+  else if rn r "h3_header" then RHeader 2 else if rn r "h4_header" then RHeader 3
+  else if rn r "h1_section" then RSection 0 else if rn r "h2_section" then RSection 1
+  else if rn r "h3_section" then RSection 2 else if rn r "h4_section" then RSection 3
+  else ROther.
 Definition tag1 (kids : list tree) (st : state) (name pre : string) : res state :=
   t <- child1_text kids ;; Ok (add_tag name (S pre ++ t) st).
 
@@ -246,15 +264,17 @@ Section Listen.
   Variable today : date.
   Variable errors : bool.          (* error_manager.errors is non-empty *)
 
-  Definition add_note (note_body : option tree) (todo : option (str * str)) (st : state) : res state :=
+  (* -> new state, the note added to the current block (if any), "page.has_errors = True" *)
+  Definition add_note (note_body : option tree) (todo : option (str * str)) (st : state)
+    : res (state * option note * bool) :=
     match note_body with
-    | None => Ok st
+    | None => Ok (st, None, false)
     | Some nb =>
         let body := strip (text_of nb) in
         match body with
-        | [] => Ok st
+        | [] => Ok (st, None, false)
         | _ =>
-            if errors then Ok (st <| s_has_errors := true |>) else
+            if errors then Ok (st, None, true) else
             bl <- scan_bullets body ;;
             st1 <- bullet_props bl st ;;
             match s_block st1 with
@@ -271,17 +291,10 @@ Section Listen.
                             n_create := cd;
                             n_modify := match s_modify st1 with Some d => d | None => cd end;
                             n_todo := todo; n_zid := s_zid st1 |} in
-                Ok (st1 <| s_notes := n :: s_notes st1 |>)
+                Ok (st1, Some n, false)
             end
         end
     end.
-
-  Definition hdr_level (r : str) : option nat :=
-    if eqb_str r (S "h1_header") then Some 0 else if eqb_str r (S "h2_header") then Some 1
-    else if eqb_str r (S "h3_header") then Some 2 else if eqb_str r (S "h4_header") then Some 3 else None.
-  Definition sec_level (r : str) : option nat :=
-    if eqb_str r (S "h1_section") then Some 0 else if eqb_str r (S "h2_section") then Some 1
-    else if eqb_str r (S "h3_section") then Some 2 else if eqb_str r (S "h4_section") then Some 3 else None.
 
   Definition enter_header (lvl : nat) (kids : list tree) (st : state) : res state :=
     let st := st <| s_in_hdr := upd lvl (fun _ => true) (s_in_hdr st) |> in
@@ -306,130 +319,143 @@ Section Listen.
     end.
   (* NB: H1 sections are numbered from 1 under the root []; h0 is the path [0]. *)
 
-  Definition enter (r : str) (line : nat) (kids : list tree) (st : state) : res state :=
-    if rn r "area" then tag1 kids st "areas" ""
-    else if rn r "context" then tag1 kids st "contexts" ""
-    else if rn r "person" then tag1 kids st "people" ""
-    else if rn r "project" then tag1 kids st "projects" ""
-    else if rn r "link" then tag1 kids st "links" ""
-    else if rn r "global_link" then tag1 kids st "links" "global:"
-    else if rn r "ref_link" then tag1 kids st "links" "ref:"
-    else if rn r "zid_link" then tag1 kids st "links" "zid:"
-    else if rn r "local_link" then
-      t <- child1_text kids ;;
-      Ok (if eqb_str t (S "X") then st else add_tag "links" (S "local:" ++ t) st)
-    else if rn r "url" then Ok (add_tag "links" (S "x:" ++ text_of (Node r line kids)) st)
-    else if rn r "base_note" then Ok (st <| s_in_note := true |>)
-    else if rn r "todo" then Ok (st <| s_in_note := true |>)
-    else if rn r "block" then
-      let parent :=
-        match getn 3 (s_h st) None with Some p => p | None =>
-        match getn 2 (s_h st) None with Some p => p | None =>
-        match getn 1 (s_h st) None with Some p => p | None =>
-        match getn 0 (s_h st) None with Some p => p | None => [0] end end end end in
-      let st0 := match getn 3 (s_h st) None, getn 2 (s_h st) None, getn 1 (s_h st) None, getn 0 (s_h st) None with
-                 | None, None, None, None => ensure_h0 st
-                 | _, _, _, _ => st
-                 end in
-      let (key, st') := new_block parent st0 in
-      Ok (st' <| s_block := Some key |>)
-    else if rn r "date" then
-      match child_tok "DATE" kids with
-      | None => Attr
-      | Some tk =>
-          let txt := text_of tk in
-          if s_in_note st && (s_ids st =? 1)%nat && match getn 5 (s_dates st) None with None => true | Some _ => false end
-          then d <- from_long txt ;; Ok (st <| s_dates := upd 5 (fun _ => Some d) (s_dates st) |>)
-          else if getn 3 (s_in_hdr st) false then d <- from_long txt ;; Ok (st <| s_dates := upd 4 (fun _ => Some d) (s_dates st) |>)
-          else if getn 2 (s_in_hdr st) false then d <- from_long txt ;; Ok (st <| s_dates := upd 3 (fun _ => Some d) (s_dates st) |>)
-          else if getn 1 (s_in_hdr st) false then d <- from_long txt ;; Ok (st <| s_dates := upd 2 (fun _ => Some d) (s_dates st) |>)
-          else if getn 0 (s_in_hdr st) false then d <- from_long txt ;; Ok (st <| s_dates := upd 1 (fun _ => Some d) (s_dates st) |>)
-          else if s_first_comment st then d <- from_long txt ;; Ok (st <| s_dates := upd 0 (fun _ => Some d) (s_dates st) |>)
-          else Ok st
-      end
-    else if rn r "head" then Ok (st <| s_in_head := true |>)
-    else if rn r "id" then
-      if s_in_note st then
-        let n := Datatypes.S (s_ids st) in
-        let st := st <| s_ids := n |> in
-        let txt := text_of (Node r line kids) in
-        if (n =? 1)%nat && is_short_date_spec txt then
-          d <- from_short txt ;; Ok (st <| s_modify := Some d |>)
-        else if ((n =? 1)%nat || ((n =? 2)%nat && match s_modify st with Some _ => true | None => false end))
-                && is_zid txt then
-          d <- from_short (match split_on (ch "#") txt with p :: _ => p | [] => [] end) ;;
-          Ok (st <| s_zid := Some txt |> <| s_dates := upd 5 (fun _ => Some d) (s_dates st) |>)
+  Definition block_parent (st : state) : list nat :=
+    match getn 3 (s_h st) None with Some p => p | None =>
+    match getn 2 (s_h st) None with Some p => p | None =>
+    match getn 1 (s_h st) None with Some p => p | None =>
+    match getn 0 (s_h st) None with Some p => p | None => [0] end end end end.
+  Definition no_section_open (st : state) : bool :=
+    match getn 3 (s_h st) None, getn 2 (s_h st) None, getn 1 (s_h st) None, getn 0 (s_h st) None with
+    | None, None, None, None => true
+    | _, _, _, _ => false
+    end.
+  Definition set_date (sc : nat) (txt : str) (st : state) : res state :=
+    d <- from_long txt ;; Ok (st <| s_dates := upd sc (fun _ => Some d) (s_dates st) |>).
+  Definition is_none {A} (o : option A) : bool := match o with None => true | Some _ => false end.
+
+  Definition enter_date (kids : list tree) (st : state) : res state :=
+    match child_tok "DATE" kids with
+    | None => Attr
+    | Some tk =>
+        let txt := text_of tk in
+        if s_in_note st && (s_ids st =? 1)%nat && is_none (getn 5 (s_dates st) None) then set_date 5 txt st
+        else if getn 3 (s_in_hdr st) false then set_date 4 txt st
+        else if getn 2 (s_in_hdr st) false then set_date 3 txt st
+        else if getn 1 (s_in_hdr st) false then set_date 2 txt st
+        else if getn 0 (s_in_hdr st) false then set_date 1 txt st
+        else if s_first_comment st then set_date 0 txt st
         else Ok st
+    end.
+
+  Definition enter_id (txt : str) (st : state) : res state :=
+    if s_in_note st then
+      let n := Datatypes.S (s_ids st) in
+      let st := st <| s_ids := n |> in
+      if (n =? 1)%nat && is_short_date_spec txt then
+        d <- from_short txt ;; Ok (st <| s_modify := Some d |>)
+      else if ((n =? 1)%nat || ((n =? 2)%nat && negb (is_none (s_modify st)))) && is_zid txt then
+        d <- from_short (match split_on (ch "#") txt with p :: _ => p | [] => [] end) ;;
+        Ok (st <| s_zid := Some txt |> <| s_dates := upd 5 (fun _ => Some d) (s_dates st) |>)
       else Ok st
-    else if rn r "inline_prop" then
-      let words := split_on (ch " ") (text_of (Node r line kids)) in
-      match words with
-      | [w] =>
-          match split_str (S "::") (firstn (length w - 2) (skipn 1 w)) with
-          | [k; v] => Ok (add_prop k v st)
-          | _ => Val
-          end
-      | w :: rest =>
-          let k := firstn (length w - 3) (skipn 1 w) in
-          let v := join (S " ") rest in
-          Ok (add_prop k (firstn (length v - 1) v) st)
-      | [] => Ok st
-      end
-    else if rn r "item" then Ok (reset_note st)
-    else if rn r "priority" then Ok (st <| s_prio := upper (text_of (Node r line kids)) |>)
-    else if rn r "quoted_word" then Ok (st <| s_in_quoted := true |>)
-    else if rn r "simple_prop" then
-      match child_rule "id" kids, child_rule "simple_prop_value" kids with
-      | Some k, Some v => Ok (add_prop (text_of k) (text_of v) st)
-      | _, _ => Attr
-      end
-    else if rn r "todo_prefix" then
-      if s_in_note st then
-        match text_of (Node r line kids) with
-        | [] => Idx
-        | c :: _ =>
-            if mem_c c (S "ox~<>") then Ok (st <| s_status := [c] |>) else Asrt
+    else Ok st.
+
+  Definition enter_inline (txt : str) (st : state) : res state :=
+    match split_on (ch " ") txt with
+    | [w] =>
+        match split_str (S "::") (firstn (length w - 2) (skipn 1 w)) with
+        | [k; v] => Ok (add_prop k v st)
+        | _ => Val
         end
-      else Ok st
-    else match hdr_level r with
-         | Some lvl => enter_header lvl kids st
-         | None => Ok st
-         end.
+    | w :: rest =>
+        let k := firstn (length w - 3) (skipn 1 w) in
+        let v := join (S " ") rest in
+        Ok (add_prop k (firstn (length v - 1) v) st)
+    | [] => Ok st
+    end.
 
-  Definition exit_ (r : str) (line : nat) (kids : list tree) (st : state) : res state :=
-    if rn r "base_todo" then
-      st1 <- add_note (child_rule "note_body" kids) (Some (s_prio st, s_status st)) st ;;
-      Ok (st1 <| s_in_note := false |> <| s_prio := default_priority |> <| s_status := S "o" |>)
-    else if rn r "base_note" then
-      st1 <- add_note (child_rule "note_body" kids) None st ;;
-      Ok (st1 <| s_in_note := false |>)
-    else if rn r "head" then Ok (st <| s_in_head := false |>)
-    else if rn r "comment" then Ok (st <| s_first_comment := false |>)
-    else if rn r "quoted_word" then Ok (st <| s_in_quoted := false |>)
-    else match hdr_level r with
-         | Some lvl => Ok (st <| s_in_hdr := upd lvl (fun _ => false) (s_in_hdr st) |>)
-         | None =>
-             match sec_level r with
-             | Some lvl =>
-                 Ok (st <| s_h := upd lvl (fun _ => None) (s_h st) |>
-                        <| s_tags := upd (Datatypes.S lvl) (fun _ => []) (s_tags st) |>
-                        <| s_dates := upd (Datatypes.S lvl) (fun _ => None) (s_dates st) |>
-                        <| s_props := upd (Datatypes.S lvl) (fun _ => []) (s_props st) |>)
-             | None => Ok st
-             end
-         end.
+  Definition enter (r : str) (line : nat) (kids : list tree) (st : state) : res state :=
+    let txt := text_of (Node r line kids) in
+    match classify r with
+    | RArea => tag1 kids st "areas" ""
+    | RContext => tag1 kids st "contexts" ""
+    | RPerson => tag1 kids st "people" ""
+    | RProject => tag1 kids st "projects" ""
+    | RLink => tag1 kids st "links" ""
+    | RGlobal => tag1 kids st "links" "global:"
+    | RRef => tag1 kids st "links" "ref:"
+    | RZidLink => tag1 kids st "links" "zid:"
+    | RLocal => t <- child1_text kids ;;
+                Ok (if eqb_str t (S "X") then st else add_tag "links" (S "local:" ++ t) st)
+    | RUrl => Ok (add_tag "links" (S "x:" ++ txt) st)
+    | RBaseNote => Ok (st <| s_in_note := true |>)
+    | RTodo => Ok (st <| s_in_note := true |>)
+    | RBlock =>
+        let st0 := if no_section_open st then ensure_h0 st else st in
+        let (key, st') := new_block (block_parent st) st0 in
+        Ok (st' <| s_block := Some key |>)
+    | RDate => enter_date kids st
+    | RHead => Ok (st <| s_in_head := true |>)
+    | RId => enter_id txt st
+    | RInline => enter_inline txt st
+    | RItem => Ok (reset_note st)
+    | RPriority => Ok (st <| s_prio := upper txt |>)
+    | RQuoted => Ok (st <| s_in_quoted := true |>)
+    | RSimple =>
+        match child_rule "id" kids, child_rule "simple_prop_value" kids with
+        | Some k, Some v => Ok (add_prop (text_of k) (text_of v) st)
+        | _, _ => Attr
+        end
+    | RTodoPrefix =>
+        if s_in_note st then
+          match txt with
+          | [] => Idx
+          | c :: _ => if mem_c c (S "ox~<>") then Ok (st <| s_status := [c] |>) else Asrt
+          end
+        else Ok st
+    | RHeader lvl => enter_header lvl kids st
+    | RBaseTodo | RComment | RSection _ | ROther => Ok st
+    end.
 
-  Fixpoint walk (t : tree) (st : state) : res state :=
+  Definition exit_ (r : str) (line : nat) (kids : list tree) (st : state) : res (state * option note * bool) :=
+    match classify r with
+    | RBaseTodo =>
+        x <- add_note (child_rule "note_body" kids) (Some (s_prio st, s_status st)) st ;;
+        let '(st1, n, f) := x in
+        Ok (st1 <| s_in_note := false |> <| s_prio := default_priority |> <| s_status := S "o" |>, n, f)
+    | RBaseNote =>
+        x <- add_note (child_rule "note_body" kids) None st ;;
+        let '(st1, n, f) := x in
+        Ok (st1 <| s_in_note := false |>, n, f)
+    | RHead => Ok (st <| s_in_head := false |>, None, false)
+    | RComment => Ok (st <| s_first_comment := false |>, None, false)
+    | RQuoted => Ok (st <| s_in_quoted := false |>, None, false)
+    | RHeader lvl => Ok (st <| s_in_hdr := upd lvl (fun _ => false) (s_in_hdr st) |>, None, false)
+    | RSection lvl =>
+        Ok (st <| s_h := upd lvl (fun _ => None) (s_h st) |>
+               <| s_tags := upd (Datatypes.S lvl) (fun _ => []) (s_tags st) |>
+               <| s_dates := upd (Datatypes.S lvl) (fun _ => None) (s_dates st) |>
+               <| s_props := upd (Datatypes.S lvl) (fun _ => []) (s_props st) |>, None, false)
+    | _ => Ok (st, None, false)
+    end.
+
+  (* accumulator: notes in reverse creation order, page.has_errors *)
+  Definition acc := (list note * bool)%type.
+  Definition push (a : acc) (n : option note) (f : bool) : acc :=
+    (match n with Some x => x :: fst a | None => fst a end, snd a || f).
+
+  Fixpoint walk (t : tree) (st : state) (a : acc) : res (state * acc) :=
     match t with
     | Node r line kids =>
         st1 <- enter r line kids st ;;
-        st2 <- (fix go (ks : list tree) (s : state) : res state :=
-                  match ks with
-                  | [] => Ok s
-                  | k :: ks' => s' <- walk k s ;; go ks' s'
-                  end) kids st1 ;;
-        exit_ r line kids st2
-    | _ => Ok st
+        x <- (fix go (ks : list tree) (s : state) (a : acc) : res (state * acc) :=
+                match ks with
+                | [] => Ok (s, a)
+                | k :: ks' => y <- walk k s a ;; go ks' (fst y) (snd y)
+                end) kids st1 a ;;
+        z <- exit_ r line kids (fst x) ;;
+        let '(st3, n, f) := z in
+        Ok (st3, push (snd x) n f)
+    | _ => Ok (st, a)
     end.
 End Listen.
 
@@ -444,10 +470,10 @@ Fixpoint key_leb (a b : list nat) : bool :=
 Record page := mkPage { p_has_errors : bool; p_notes : list note; p_sections : list (list nat * str) }.
 
 Definition listen (today : date) (errors : bool) (t : tree) : res page :=
-  st <- walk today errors t init_state ;;
-  Ok {| p_has_errors := s_has_errors st;
-        p_notes := isort (fun a b => key_leb (n_key a) (n_key b)) (rev (s_notes st));
-        p_sections := s_sections st |}.
+  x <- walk today errors t init_state ([], false) ;;
+  Ok {| p_has_errors := snd (snd x);
+        p_notes := isort (fun a b => key_leb (n_key a) (n_key b)) (rev (fst (snd x)));
+        p_sections := s_sections (fst x) |}.
 
 (* ---- wire format ---- *)
 Fixpoint dTree_fuel (fuel : nat) (x : sexp) : tree :=
